@@ -61,8 +61,32 @@ fn gen_lcs<S: Scheme>(tx: &Tx<S>, allow_bounded_mix: bool, rng: &mut ChaCha20Rng
     let bounded: Vec<usize> = (0..tx.polys.len()).filter(|&i| tx.specs[i].bound.is_some()).collect();
     let nlc = range(rng, 1, 4);
     let mut lcs: Vec<Lc<S>> = Vec::new();
+    // a combination may carry the label of a polynomial - its own single term (the usual way to open a plain
+    // polynomial among combinations) or an unrelated one: labels of combinations and of polynomials are separate
+    // name spaces
+    let clash = match rng.next_u32() % 4 {
+        0 => Some((below(rng, nlc), true)),
+        1 => Some((below(rng, nlc), false)),
+        _ => None,
+    };
     for j in 0..nlc {
-        let label = format!("{}{}", ["lc", "eq", "Zq", "a_"][below(rng, 4)], j);
+        let mut label = format!("{}{}", ["lc", "eq", "Zq", "a_"][below(rng, 4)], j);
+        let mut own_term: Option<usize> = None;
+        if let Some((cj, own)) = clash {
+            if cj == j {
+                let i = if unbounded.is_empty() { below(rng, tx.polys.len()) } else { unbounded[below(rng, unbounded.len())] };
+                label = tx.polys[i].label().clone();
+                if own && !allow_bounded_mix && tx.specs[i].bound.is_none() {
+                    own_term = Some(i);
+                }
+            }
+        }
+        if let Some(i) = own_term {
+            let mut lc = LinearCombination::empty(label);
+            lc.push((FOf::<S>::one(), LCTerm::PolyLabel(tx.polys[i].label().clone())));
+            lcs.push(lc);
+            continue;
+        }
         let mut lc = LinearCombination::empty(label);
         if !bounded.is_empty() && (unbounded.is_empty() || rng.next_u32() % 4 == 0) && !allow_bounded_mix {
             // the only admissible shape with a degree-bounded polynomial: single term, coefficient one
@@ -71,7 +95,9 @@ fn gen_lcs<S: Scheme>(tx: &Tx<S>, allow_bounded_mix: bool, rng: &mut ChaCha20Rng
         } else {
             let pool: &Vec<usize> = if allow_bounded_mix || unbounded.is_empty() { &bounded } else { &unbounded };
             let pool: Vec<usize> = if allow_bounded_mix { (0..tx.polys.len()).collect() } else { pool.clone() };
-            let nterms = range(rng, 1, 6);
+            // mostly 1..6 terms; one combination in twelve is long (repeated labels): windowed / chunked
+            // accumulation only starts beyond a few dozen terms
+            let nterms = if rng.next_u32() % 12 == 0 { range(rng, 20, 90) } else { range(rng, 1, 6) };
             let mut has_poly = false;
             for t in 0..nterms {
                 if t > 0 && rng.next_u32() % 4 == 0 {
